@@ -21,7 +21,12 @@ AsDict == /\ nops < MaxOps
              IF hit THEN last' = [op |-> "as_dict", view |-> cacheVal] /\ UNCHANGED <<cacheKey, cacheVal>>
              ELSE cacheKey' = content /\ cacheVal' = content /\ last' = [op |-> "as_dict", view |-> content]
           /\ nops' = nops + 1 /\ UNCHANGED content
-Next == (\E m \in Mods : Modify(m)) \/ AsDict
+\* modifications that take statements away (tree edit removing the last statement, replacing the whole tree)
+Remove(m) == /\ nops < MaxOps /\ content # <<>>
+             /\ content' = IF m = "remove_last" THEN SubSeq(content, 1, Len(content) - 1) ELSE <<"replaced">>
+             /\ IF STALE THEN UNCHANGED <<cacheKey, cacheVal>> ELSE UNCHANGED <<cacheKey, cacheVal>>
+             /\ nops' = nops + 1 /\ last' = [op |-> "modify", m |-> m]
+Next == (\E m \in Mods : Modify(m)) \/ (\E m \in {"remove_last", "replace_tree"} : Remove(m)) \/ AsDict
 Spec == Init /\ [][Next]_vars
 ViewIsCurrent == last.op = "as_dict" => last.view = content
 =============================================================================
